@@ -20,31 +20,122 @@ def features(j):
     f = {"kind": (j.get("kind") or "").split("/")[0], "outcome": j.get("outcome")}
     for s in j.get("shape") or []:
         f[s] = True
+    # which observables fail (classified from the differences): an open finding matches only when
+    # nothing else fails in the case
+    f["failing"] = "+".join(sorted({d["category"] for d in differences(j)})) or "none"
     return f
 
 
-def explain(j):
+def primary_of(e):
+    groups = {}
+    for c in e["consts"]:
+        groups.setdefault(int(c["val"]), []).append(c)
+    out = {}
+    for v, g in groups.items():
+        live = sorted((c for c in g if not c["dep"]), key=lambda c: c["name"])
+        out[v] = live[0] if live else sorted(g, key=lambda c: c["name"])[0]
+    return out
+
+
+def lowest(e):
+    return min(e["consts"], key=lambda c: (int(c["val"]), c["name"]))
+
+
+def denotes(d, cl):
+    if cl["kind"] == "str" and d.get("str") is not None and d["str"] == cl.get("str", ""):
+        return True
+    if cl["kind"] == "int" and cl.get("int") in (d.get("u64"), d.get("i64")):
+        return True
+    for n in d.get("native") or []:
+        if n.get("ok") and n["ty"] == cl["ty"] and n.get("p"):
+            p = n["p"]
+            if (p["k"] == "int" and cl["kind"] == "int" and p.get("i") == cl.get("int")) or \
+               (p["k"] == "str" and cl["kind"] == "str" and p.get("s", "") == cl.get("str", "")):
+                return True
+    return False
+
+
+def differences(j):
+    """the observables that depart from the specification, each with a category (mirrors
+    GEnumJudge.c12_spec_ok; used for the report and to key findings, never to judge)"""
     e = j["file"]["enums"][j["enum"]]
+    o = j["file"]["opts"]
     if j["outcome"] != "built":
-        return {"expected": "generation and compilation succeed (or a diagnostic for a definition the documented rules reject)",
-                "observed": j["outcome"], "log": (j.get("gen_log") or j.get("build_log") or "")[-600:]}
+        return [{"category": j["outcome"],
+                 "expected": "generation and compilation succeed (or a diagnostic for a definition the documented rules reject)",
+                 "observed": j["outcome"], "log": (j.get("gen_log") or j.get("build_log") or "")[-600:]}]
+    cols = [cl["var"].lstrip("_") if cl["var"].startswith("_") else cl["var"] for cl in (lowest(e).get("cells") or [])]
+    cols = [(cl["var"][1:] if cl["var"].startswith("_") else cl["var"]) for cl in (lowest(e).get("cells") or [])]
+    colty = {cols[k]: cl for k, cl in enumerate(lowest(e).get("cells") or [])}
+    par = set(o.get("parsable") or []) if not o.get("notraits") else set()
+    prim = primary_of(e)
+
+    def pcell(col, v):
+        c = prim.get(v)
+        if c is None or col not in cols:
+            return None
+        k = cols.index(col)
+        cells = c.get("cells") or []
+        return cells[k] if k < len(cells) else None
+
+    def pcells(c):
+        return [cl for k, cl in enumerate(c.get("cells") or []) if k < len(cols) and cols[k] in par]
+
+    names = {c["name"]: int(c["val"]) for c in e["consts"]}
+    lnames = {c["name"].lower() for c in e["consts"]}
     out = []
+    zero = {"str": {"k": "str"}, "int": {"k": "int", "i": "0"}, "bool": {"k": "bool"}}
+    for a in j["obs"].get("acc") or []:
+        for ev, p in zip(a["e"], a["p"]):
+            cl = pcell(a["col"], int(ev))
+            if cl is None:
+                exp = zero[colty[a["col"]]["kind"]] if a["col"] in colty else None
+            else:
+                exp = {"k": cl["kind"]}
+                if cl["kind"] == "str" and cl.get("str"):
+                    exp["s"] = cl["str"]
+                if cl["kind"] == "int":
+                    exp["i"] = cl["int"]
+                if cl["kind"] == "bool" and cl.get("bool"):
+                    exp["b"] = True
+            if exp is not None and p != exp:
+                out.append({"category": "accessor", "observable": "%s() of %s" % (a["col"], ev), "expected": exp, "observed": p})
     for t in j["obs"].get("tparse") or []:
-        if t["res"] != "ok:" + t["e"]:
-            out.append({"observable": "Parse(%s() of %s)" % (t["col"], t["e"]), "input": t["in"],
-                        "expected": "ok:" + t["e"] + " when the primary line of the value carries the trait",
-                        "observed": t["res"]})
+        if pcell(t["col"], int(t["e"])) is not None and t["res"] != "ok:" + t["e"]:
+            out.append({"category": "parse_by_trait", "observable": "Parse(%s() of %s)" % (t["col"], t["e"]),
+                        "input": t["in"], "expected": "ok:" + t["e"], "observed": t["res"]})
     for d in j["obs"].get("docs") or []:
         fr = d.get("from") or ""
-        if d.get("called") and fr.startswith("trait:"):
-            col, v = fr[6:].rsplit(":", 1)
-            if d["res"] != "ok:" + v:
-                out.append({"observable": "%s decode of trait %s of value %s" % (d["codec"], col, v),
-                            "document": d["doc"], "expected": "ok:" + v, "observed": d["res"]})
-        if d.get("called") and fr.startswith("value:") and d["res"] != "ok:" + fr[6:]:
-            out.append({"observable": "%s round trip" % d["codec"], "document": d["doc"],
+        if not d.get("called"):
+            continue
+        if fr.startswith("value:") and d["res"] != "ok:" + fr[6:]:
+            out.append({"category": "round_trip", "observable": "%s round trip" % d["codec"], "document": d["doc"],
                         "expected": "ok:" + fr[6:], "observed": d["res"]})
-    return out[:8] + ([{"note": "accessor tables: see case.observed.acc"}] if not out else [])
+        if fr.startswith("trait:"):
+            col, v = fr[6:].rsplit(":", 1)
+            cl = pcell(col, int(v))
+            if cl is None or d["res"] == "ok:" + v:
+                continue
+            owners = {int(c["val"]) for c in e["consts"] if any(denotes(d, x) for x in pcells(c))}
+            s = d.get("str")
+            named = s is not None and (s in names or (o["ci"] and s.lower() in lnames))
+            if named or any(w != int(v) for w in owners):
+                if d["res"] == "panic":
+                    out.append({"category": "panic", "document": d["doc"]})
+                continue
+            cat = "trait_decode"
+            if cl["kind"] == "bool":
+                cat = "bool_trait_decode"
+            elif cl["ty"] == "time.Duration" and d["codec"] == "yaml":
+                cat = "yaml_duration_trait_decode"
+            out.append({"category": cat, "observable": "%s decode of trait %s of value %s" % (d["codec"], col, v),
+                        "document": d["doc"], "expected": "ok:" + v, "observed": d["res"]})
+    return out
+
+
+def explain(j):
+    ds = differences(j)
+    return ds[:10] + ([{"note": "%d further differences" % (len(ds) - 10)}] if len(ds) > 10 else [])
 
 
 def run(ctx):
@@ -58,7 +149,7 @@ def run(ctx):
     ]
     ctx.obligations_or_violation()
     quick = ctx.tier == "quick"
-    terms, jsons, err = gl.run_farm(ctx, "c12", n=28 if quick else 700, corpus=True)
+    terms, jsons, err = gl.run_farm(ctx, "c12", n=16 if quick else 600, corpus=True)
     if err:
         ctx.report({"unchecked": "generator farm run against the current tree", "detail": err},
                    {"kind": "harness"}, failing_input=False)
